@@ -15,9 +15,9 @@ ID = 'C13'
 LEVEL = 'model_checking'
 
 
-def exact(shape, cards, m=None) -> bool:
+def exact(shape, cards, m=None, abstract=None) -> bool:
     from .common import result_twice
-    m = R.build(shape, cards) if m is None else m
+    m = R.build(shape, cards, abstract=abstract) if m is None else m
     est = result_twice(FMEstimatedConfigurationsNumber(), m)
     if est != count_configurations(m) or est != count_configurations_rec(m.root):
         return False
